@@ -89,19 +89,19 @@ theorem lookupVar_wf (n : Nat) : ∀ (Γ : Ctx) (t : Ty), CtxWf Γ → lookupVar
 
 /-! ### argument lists -/
 
-theorem coalescePlainList_iff : ∀ (l : List PExpr), coalescePlainList l = true ↔ ∀ a ∈ l, coalescePlain a = true
-  | [] => by simp [coalescePlainList]
-  | a :: as => by simp [coalescePlainList, coalescePlainList_iff as]
+theorem coalesceOkList_iff : ∀ (l : List PExpr), coalesceOkList l = true ↔ ∀ a ∈ l, coalesceOk a = true
+  | [] => by simp [coalesceOkList]
+  | a :: as => by simp [coalesceOkList, coalesceOkList_iff as]
 
 /-- the argument loop: the values are those of the arguments, so they match the arguments' static types -/
 theorem evalArgs_conforms (S : Sig) (Γ : Ctx) (ρ : List (List Value)) (he : EnvConforms Γ ρ) :
-    ∀ (args : List PExpr) (vs : List Value), (∀ a ∈ args, Sound S Γ a) → coalescePlainList args = true →
+    ∀ (args : List PExpr) (vs : List Value), (∀ a ∈ args, Sound S Γ a) → coalesceOkList args = true →
       evalArgs S Γ ρ args = .ok vs → conformsZip (args.map PExpr.ty) vs = true
   | [], vs, _, _, h => by
     simp only [evalArgs, Except.ok.injEq] at h; subst h; simp [conformsZip]
   | a :: as, vs, hs, hp, h => by
     simp only [evalArgs] at h
-    simp only [coalescePlainList, Bool.and_eq_true] at hp
+    simp only [coalesceOkList, Bool.and_eq_true] at hp
     cases ha : eval S Γ ρ a with
     | val v =>
       simp only [ha] at h
@@ -202,7 +202,7 @@ theorem assert_sound {S : Sig} {Γ : Ctx} {a : PExpr} {target t : Ty} (hs : Soun
     Sound S Γ (.assert t target a) := by
   refine ⟨(typeInter_sub wt hs.1 h).1, ?_⟩
   intro hp ρ v he hv
-  simp only [coalescePlain] at hp
+  simp only [coalesceOk] at hp
   simp only [eval] at hv
   cases hav : eval S Γ ρ a with
   | val w =>
@@ -514,7 +514,7 @@ theorem finish_sound {S : Sig} {Γ : Ctx} {name : Name} {d : Descr} {i : Nat} {o
       have ⟨wt, mono, hnull⟩ := liftNull_spec args o t hl wo
       refine ⟨wt, ?_⟩
       intro hp ρ v he hv
-      simp only [coalescePlain] at hp
+      simp only [coalesceOk] at hp
       simp only [eval] at hv
       cases hea : evalArgs S Γ ρ args with
       | error r => simp only [hea] at hv; exact absurd hv (evalArgs_error S Γ ρ args r hea v)
@@ -532,7 +532,7 @@ theorem finish_sound {S : Sig} {Γ : Ctx} {name : Name} {d : Descr} {i : Nat} {o
     subst h
     refine ⟨wo, ?_⟩
     intro hp ρ v he hv
-    simp only [coalescePlain] at hp
+    simp only [coalesceOk] at hp
     simp only [eval] at hv
     cases hea : evalArgs S Γ ρ args with
     | error r => simp only [hea] at hv; exact absurd hv (evalArgs_error S Γ ρ args r hea v)
@@ -658,7 +658,7 @@ theorem logicRes_cons {ne : Bool} {a : PExpr} {as : List PExpr} {v : Value} (h :
 
 theorem evalAnd_spec (S : Sig) (Γ : Ctx) (ρ : List (List Value)) (he : EnvConforms Γ ρ) :
     ∀ (args : List PExpr) (ne : Bool) (v : Value), (∀ a ∈ args, Sound S Γ a ∧ a.ty.is boolNull = .is) →
-      coalescePlainList args = true → evalAnd S Γ ρ ne args = .val v → LogicRes ne args v
+      coalesceOkList args = true → evalAnd S Γ ρ ne args = .val v → LogicRes ne args v
   | [], ne, v, _, _, h => by
     simp only [evalAnd] at h
     cases ne with
@@ -666,7 +666,7 @@ theorem evalAnd_spec (S : Sig) (Γ : Ctx) (ρ : List (List Value)) (he : EnvConf
     | false => simp only [Bool.false_eq_true, if_false, Res.val.injEq] at h; subst h; exact Or.inl ⟨_, rfl⟩
   | a :: as, ne, v, hs, hp, h => by
     simp only [evalAnd] at h
-    simp only [coalescePlainList, Bool.and_eq_true] at hp
+    simp only [coalesceOkList, Bool.and_eq_true] at hp
     have ⟨hsa, hba⟩ := hs a (by simp)
     have hsas : ∀ b ∈ as, Sound S Γ b ∧ b.ty.is boolNull = .is := fun b hb => hs b (by simp [hb])
     cases hav : eval S Γ ρ a with
@@ -690,7 +690,7 @@ theorem evalAnd_spec (S : Sig) (Γ : Ctx) (ρ : List (List Value)) (he : EnvConf
 
 theorem evalOr_spec (S : Sig) (Γ : Ctx) (ρ : List (List Value)) (he : EnvConforms Γ ρ) :
     ∀ (args : List PExpr) (ne : Bool) (v : Value), (∀ a ∈ args, Sound S Γ a ∧ a.ty.is boolNull = .is) →
-      coalescePlainList args = true → evalOr S Γ ρ ne args = .val v → LogicRes ne args v
+      coalesceOkList args = true → evalOr S Γ ρ ne args = .val v → LogicRes ne args v
   | [], ne, v, _, _, h => by
     simp only [evalOr] at h
     cases ne with
@@ -698,7 +698,7 @@ theorem evalOr_spec (S : Sig) (Γ : Ctx) (ρ : List (List Value)) (he : EnvConfo
     | false => simp only [Bool.false_eq_true, if_false, Res.val.injEq] at h; subst h; exact Or.inl ⟨_, rfl⟩
   | a :: as, ne, v, hs, hp, h => by
     simp only [evalOr] at h
-    simp only [coalescePlainList, Bool.and_eq_true] at hp
+    simp only [coalesceOkList, Bool.and_eq_true] at hp
     have ⟨hsa, hba⟩ := hs a (by simp)
     have hsas : ∀ b ∈ as, Sound S Γ b ∧ b.ty.is boolNull = .is := fun b hb => hs b (by simp [hb])
     cases hav : eval S Γ ρ a with
@@ -742,7 +742,7 @@ theorem and_sound {S : Sig} {Γ : Ctx} {l r : PExpr} (hl : Sound S Γ l ∧ l.ty
     (hr : Sound S Γ r ∧ r.ty.is boolNull = .is) : Sound S Γ (.and (logicTy l r) [l, r]) := by
   refine ⟨logicTy_wf l r, ?_⟩
   intro hp ρ v he hv
-  simp only [coalescePlain] at hp
+  simp only [coalesceOk] at hp
   simp only [eval] at hv
   exact logicRes_conforms (evalAnd_spec S Γ ρ he [l, r] false v (by
     intro a ha; simp only [List.mem_cons, List.not_mem_nil, or_false] at ha
@@ -752,7 +752,7 @@ theorem or_sound {S : Sig} {Γ : Ctx} {l r : PExpr} (hl : Sound S Γ l ∧ l.ty.
     (hr : Sound S Γ r ∧ r.ty.is boolNull = .is) : Sound S Γ (.or (logicTy l r) [l, r]) := by
   refine ⟨logicTy_wf l r, ?_⟩
   intro hp ρ v he hv
-  simp only [coalescePlain] at hp
+  simp only [coalesceOk] at hp
   simp only [eval] at hv
   exact logicRes_conforms (evalOr_spec S Γ ρ he [l, r] false v (by
     intro a ha; simp only [List.mem_cons, List.not_mem_nil, or_false] at ha
@@ -770,7 +770,7 @@ theorem tuple_sound {S : Sig} {Γ : Ctx} (args : List PExpr) (hargs : ∀ a ∈ 
     obtain ⟨a, ha, rfl⟩ := ht
     exact (hargs a ha).1
   · intro hp ρ v he hv
-    simp only [coalescePlain] at hp
+    simp only [coalesceOk] at hp
     simp only [eval] at hv
     cases hea : evalArgs S Γ ρ args with
     | error r => simp only [hea] at hv; exact absurd hv (evalArgs_error S Γ ρ args r hea v)
@@ -835,7 +835,7 @@ theorem cast_sound {S : Sig} {Γ : Ctx} {tid : Nat} {p p' : PExpr} (hs : Sound S
         have wp := hs.1; rw [hty] at wp
         refine ⟨typeSum_wf hsum (wf_alt wp hm) (by simp [wf]), ?_⟩
         intro hp ρ v he hv
-        simp only [coalescePlain] at hp
+        simp only [coalesceOk] at hp
         simp only [eval] at hv
         cases hav : eval S Γ ρ p with
         | val w =>
